@@ -322,3 +322,15 @@ package dtlshandshake
 //@ ensures ku-protected-and-tracked: result1 == nil ==> len(result0.Packets) == 1 && result0.Packets[0].ShouldEncrypt && result0.Packets[0].ShouldTrackACK
 //@ ensures ku-sent-under-current-epoch: result1 == nil ==> result0.Epoch == result0.Packets[0].Record.Header.Epoch
 //@ end
+
+// ---- round 2 (h3) ----------------------------------------------------------------------------------------------
+// Key updates under datagram loss: a lost KeyUpdate is sent again on the timer, restricted to the fragments the peer has
+// not acknowledged. The per-packet selection handed to the record layer (Packet.HandshakeFragmentOffsets, "offset ->
+// length", internal/flight/types.go) must name exactly pending fragments of that packet's own message: every entry
+// offset -> length is the (message_seq, offset, length) of a fragment that is still in flight.PendingFragments. (An
+// entry that names no pending fragment selects nothing: the retransmission would be empty and the update could never be
+// acknowledged.) Stated as the invariant of the loop that rebuilds the selection; completeness of the enumeration of a
+// Go map range is not decided (engine: a map range is an arbitrary enumeration).
+//@ func postHandshake.retransmitPostHandshakeFlight
+//@ loop #2: c20-selection-names-pending-fragments: forallKey(packet.HandshakeFragmentOffsets, func(k uint32) bool { return !forallKey(flight.PendingFragments, func(f postHandshakeFragment) bool { return !(f.MessageSequence == message.Header.MessageSequence && f.Offset == k && f.Length == packet.HandshakeFragmentOffsets[k]) }) })
+//@ end
